@@ -123,27 +123,48 @@ func (r *runner) checkView(op int, v *preconfirmed.ChainReader, b uint64) []*pen
 // checkLookups validates TransactionByHash / ReceiptByHash of a view against its own entries.
 func (r *runner) checkLookups(op int, v *preconfirmed.ChainReader, b uint64, nf []*pending.PreConfirmed, hash uint64) (string, string) {
 	h := fe(hash)
-	var wantTx core.Transaction
-	var wantRc *core.TransactionReceipt
-	var wantRcBlock uint64
-	for _, e := range nf { // the definition: first match scanning the view's blocks newest first
-		if e == nil || e.Block == nil {
-			continue
-		}
-		if wantTx == nil {
-			for _, tx := range e.Block.Transactions {
-				if tx != nil && tx.Hash().Equal(h) {
-					wantTx = tx
-					break
+	// the definition: a hit must be an item with that hash held by a block of the view (with the
+	// number of that block, for receipts); a miss is right only if no block of the view holds one.
+	// (With the same hash in two blocks of a view, which of them is found is not specified.)
+	anyTx, anyRc := false, false
+	txOf := func(t core.Transaction) bool {
+		for _, e := range nf {
+			if e == nil || e.Block == nil {
+				continue
+			}
+			for _, x := range e.Block.Transactions {
+				if x == t && x != nil && x.Hash().Equal(h) {
+					return true
 				}
 			}
 		}
-		if wantRc == nil {
-			for _, rc := range e.Block.Receipts {
-				if rc != nil && rc.TransactionHash.Equal(h) {
-					wantRc, wantRcBlock = rc, e.Block.Number
-					break
+		return false
+	}
+	rcOf := func(rc *core.TransactionReceipt, num uint64) bool {
+		for _, e := range nf {
+			if e == nil || e.Block == nil || e.Block.Number != num {
+				continue
+			}
+			for _, x := range e.Block.Receipts {
+				if x == rc && x != nil && x.TransactionHash.Equal(h) {
+					return true
 				}
+			}
+		}
+		return false
+	}
+	for _, e := range nf {
+		if e == nil || e.Block == nil {
+			continue
+		}
+		for _, x := range e.Block.Transactions {
+			if x != nil && x.Hash().Equal(h) {
+				anyTx = true
+			}
+		}
+		for _, x := range e.Block.Receipts {
+			if x != nil && x.TransactionHash.Equal(h) {
+				anyRc = true
 			}
 		}
 	}
@@ -152,12 +173,12 @@ func (r *runner) checkLookups(op int, v *preconfirmed.ChainReader, b uint64, nf 
 	switch {
 	case err == nil && tx != nil:
 		txTok = fv(tx.Hash()) + "." + txTag(tx)
-		if tx != wantTx {
+		if !txOf(tx) {
 			r.violate(op, "tx-lookup-returns-item-not-of-the-view",
-				fmt.Sprintf("SnapshotForBlock(%d).TransactionByHash(%d) returned %s; the view's blocks hold %v", b, hash, txTok, wantTx != nil))
+				fmt.Sprintf("SnapshotForBlock(%d).TransactionByHash(%d) returned %s, which no block of the view holds under that hash (the view holds one: %v)", b, hash, txTok, anyTx))
 		}
 	case errors.Is(err, pending.ErrTransactionNotFound):
-		if wantTx != nil {
+		if anyTx {
 			r.violate(op, "tx-lookup-misses-item-of-the-view",
 				fmt.Sprintf("SnapshotForBlock(%d).TransactionByHash(%d): not found, but a block of the view holds it", b, hash))
 		}
@@ -169,14 +190,14 @@ func (r *runner) checkLookups(op int, v *preconfirmed.ChainReader, b uint64, nf 
 	switch {
 	case err == nil && rc != nil:
 		rcTok = fmt.Sprintf("%s.%s.%d@%d", fv(rc.TransactionHash), fv(rc.Fee), len(rc.Events), num)
-		if rc != wantRc || num != wantRcBlock {
+		if !rcOf(rc, num) {
 			r.violate(op, "receipt-lookup-returns-item-not-of-the-view",
-				fmt.Sprintf("SnapshotForBlock(%d).ReceiptByHash(%d) returned %s; want block %d", b, hash, rcTok, wantRcBlock))
+				fmt.Sprintf("SnapshotForBlock(%d).ReceiptByHash(%d) returned %s: block %d of the view does not hold that receipt under that hash", b, hash, rcTok, num))
 		}
 	case errors.Is(err, pending.ErrTransactionReceiptNotFound):
-		if wantRc != nil {
+		if anyRc {
 			r.violate(op, "receipt-lookup-misses-item-of-the-view",
-				fmt.Sprintf("SnapshotForBlock(%d).ReceiptByHash(%d): not found, but block %d of the view holds it", b, hash, wantRcBlock))
+				fmt.Sprintf("SnapshotForBlock(%d).ReceiptByHash(%d): not found, but a block of the view holds it", b, hash))
 		}
 	default:
 		rcTok = "err"
@@ -342,6 +363,10 @@ func (r *runner) step(i int, o OpSpec) string {
 				sr, _, e = v.PreConfirmedStateBeforeIndexAt(o.Block, uint(o.Index), r.base.bc)
 			}
 			out = r.stateReads(sr, e)
+			if e == nil && o.Op == "state" {
+				out += " " + readsLU(sr)
+				r.checkLastUpdated(i, &v, o.Head, o.Block, sr)
+			}
 			return nil
 		})
 		if panicked {
@@ -354,7 +379,7 @@ func (r *runner) step(i int, o OpSpec) string {
 		}
 		r.hit(o.Op + "-" + tok)
 		if o.Op == "state" {
-			r.ask(i, "err-generic", fmt.Sprintf("state %d %d", o.Head, o.Block), out)
+			r.ask(i, "state", fmt.Sprintf("state %d %d", o.Head, o.Block), out)
 		} else {
 			r.ask(i, "err-generic", fmt.Sprintf("statebi %d %d %d", o.Head, o.Block, o.Index), out)
 		}
@@ -443,10 +468,18 @@ func (r *runner) checkOverlay(op int) {
 	if err != nil {
 		return
 	}
+	sent := sentBlocks(r.scn)
 	for e := range v.OldestFirst() {
-		// the canonical node gets its own copy of the diff (Finalise fills roots in the update)
-		d := cloneDiff(e.StateUpdate.StateDiff)
-		if err := truth.finalise(d, e.NewClasses); err != nil {
+		// The canonical node applies what the sequencer SENT for this block (the scenario's
+		// per-transaction diffs, folded in order by the harness itself), not what the adapters made
+		// of it: the reference is independent of AdaptPreConfirmed* and StateDiff.Merge.
+		sb, known := sent[e.Block.Number]
+		if !known {
+			r.hit("overlay-block-not-in-scenario")
+			return
+		}
+		d := sb.diff
+		if err := truth.finalise(d, classMap(sb.classes)); err != nil {
 			r.hit("overlay-truth-rejects-block")
 			return
 		}
@@ -516,4 +549,122 @@ func cloneDiff(d *core.StateDiff) *core.StateDiff {
 	}
 	n.DeclaredV0Classes = append(n.DeclaredV0Classes, d.DeclaredV0Classes...)
 	return &n
+}
+
+// checkLastUpdated is the oracle for ContractStorageLastUpdatedBlock through a view: the newest
+// block of the view, up to the requested one, whose diff writes the slot; for a slot the view does
+// not write: 0 if the view deploys the contract, else what the state below the view says.
+func (r *runner) checkLastUpdated(op int, v *preconfirmed.ChainReader, b, block uint64, sr core.StateReader) {
+	var base core.StateReader
+	for _, a := range uniAddrs {
+		for _, k := range uniSlots {
+			af, kf := *fe(a), *fe(k)
+			writer, written, deployed := uint64(0), false, false
+			for e := range v.OldestFirst() {
+				if e.Block.Number > block {
+					break
+				}
+				d := e.StateUpdate.StateDiff
+				if inner, ok := d.StorageDiffs[af]; ok {
+					if _, ok := inner[kf]; ok {
+						writer, written = e.Block.Number, true
+					}
+				}
+				if _, ok := d.DeployedContracts[af]; ok {
+					deployed = true
+				}
+			}
+			addr := felt.Address(af)
+			got, err := sr.ContractStorageLastUpdatedBlock(&addr, &kf)
+			if err != nil {
+				continue
+			}
+			want := uint64(0)
+			switch {
+			case written:
+				want = writer
+			case deployed:
+				want = 0
+			default:
+				if base == nil {
+					var e error
+					if base, _, e = r.base.bc.StateAtBlockNumber(b - 1); e != nil {
+						return
+					}
+				}
+				if want, err = base.ContractStorageLastUpdatedBlock(&addr, &kf); err != nil {
+					continue
+				}
+			}
+			if got == want {
+				continue
+			}
+			if written && got == block {
+				r.violate(op, "storage-last-updated-block-is-the-requested-block",
+					fmt.Sprintf("view for block %d, state at block %d: slot %d of contract %d was last written by block %d of the view, ContractStorageLastUpdatedBlock answers %d", b, block, k, a, want, got))
+			} else {
+				r.violate(op, "storage-last-updated-block-wrong",
+					fmt.Sprintf("view for block %d, state at block %d: slot %d of contract %d: want %d got %d", b, block, k, a, want, got))
+			}
+		}
+	}
+}
+
+type sentBlock struct {
+	diff    *core.StateDiff
+	classes [][2]uint64
+}
+
+// sentBlocks replays an overlay scenario's updates at the level of what was sent: a full block
+// sets the block's transactions, a delta appends to them; the block's diff is the fold, in order,
+// of its transactions' diffs.
+func sentBlocks(scn *Scenario) map[uint64]sentBlock {
+	txs := map[uint64][]TxSpec{}
+	cls := map[uint64][][2]uint64{}
+	for _, o := range scn.Ops {
+		if o.Op != "apply" || o.U == nil {
+			continue
+		}
+		switch o.U.Kind {
+		case "B":
+			txs[o.Num] = append([]TxSpec{}, o.U.Txs...)
+			cls[o.Num] = append([][2]uint64{}, o.Classes...)
+		case "D":
+			txs[o.Num] = append(txs[o.Num], o.U.Txs...)
+			cls[o.Num] = append(cls[o.Num], o.Classes...)
+		}
+	}
+	out := map[uint64]sentBlock{}
+	for num, ts := range txs {
+		d := core.EmptyStateDiff()
+		for _, t := range ts {
+			td := t.Diff.coreDiff()
+			for a, inner := range td.StorageDiffs {
+				if d.StorageDiffs[a] == nil {
+					d.StorageDiffs[a] = map[felt.Felt]*felt.Felt{}
+				}
+				for k, v := range inner {
+					d.StorageDiffs[a][k] = v
+				}
+			}
+			for k, v := range td.Nonces {
+				d.Nonces[k] = v
+			}
+			for k, v := range td.DeployedContracts {
+				d.DeployedContracts[k] = v
+			}
+			for k, v := range td.ReplacedClasses {
+				d.ReplacedClasses[k] = v
+			}
+			for k, v := range td.DeclaredV1Classes {
+				d.DeclaredV1Classes[k] = v
+			}
+			for k, v := range td.MigratedClasses {
+				d.MigratedClasses[k] = v
+			}
+			d.DeclaredV0Classes = append(d.DeclaredV0Classes, td.DeclaredV0Classes...)
+		}
+		out[num] = sentBlock{diff: &d, classes: cls[num]}
+	}
+	return out
 }
